@@ -290,6 +290,127 @@ fn stage2_tables(ctx: &Ctx) -> (u64, u64, Vec<Bad>) {
 }
 
 /// Part 4: convolution dispatch: every modulus size x transform size; worst-case operands.
+// ---- part 5: the class-group parameter tables, through their consumer
+
+fn jacobi(mut a: u64, mut n: u64) -> i32 {
+    // n odd
+    a %= n;
+    let mut r = 1;
+    while a != 0 {
+        while a % 2 == 0 {
+            a /= 2;
+            if n % 8 == 3 || n % 8 == 5 {
+                r = -r;
+            }
+        }
+        std::mem::swap(&mut a, &mut n);
+        if a % 4 == 3 && n % 4 == 3 {
+            r = -r;
+        }
+        a %= n;
+    }
+    if n == 1 {
+        r
+    } else {
+        0
+    }
+}
+
+/// The size the class-group code uses to index its tables (replicated only to steer the
+/// enumeration towards every table row; the verdict never depends on it).
+fn cls_adjusted_size(dabs: &W) -> u32 {
+    let low = dabs.digits()[0];
+    let mut bias: f64 = match low & 7 {
+        7 => 1.0,
+        3 => 0.0,
+        _ => -0.5,
+    };
+    for p in yamaquasi::fbase::SMALL_PRIMES {
+        if p == 2 {
+            continue;
+        }
+        let r = (*dabs % W::from_digit(p)).digits()[0];
+        let mut l = jacobi(r, p);
+        if p % 4 == 3 {
+            l = -l;
+        }
+        bias += (l as f64) * (p as f64).log2() / (p as f64);
+    }
+    std::cmp::max(1, dabs.bits() as i64 - (2.5 * bias).round() as i64) as u32
+}
+
+/// For every adjusted size s in the range: discriminants -p (both classes mod 8) and -4p whose
+/// adjusted size is exactly s; classgroup() runs its whole parameter selection (factor base,
+/// A factors, A values, interval, large prime bounds) and one polynomial family, then sees the
+/// abort predicate. A panic is a table row whose consumer rejects it.
+fn classgroup_tables(smax: u32) -> (u64, Vec<Bad>, Vec<u32>) {
+    let targets: Vec<u32> = (20..=smax).collect();
+    let res: Vec<(u64, Vec<Bad>, bool)> = targets
+        .par_iter()
+        .map(|&s| {
+            let mut bad = vec![];
+            let mut ev = 0;
+            let mut found: Vec<(String, u64)> = vec![];
+            // -p, p = 3 mod 4, for bit sizes around s
+            'search: for k in [0i32, 1, -1, 2, -2, 3, -3, 4, -4, 5, -5, 6, -6, 7, -7, 8, -8] {
+                let bits = s as i32 + k;
+                if bits < 12 {
+                    continue;
+                }
+                let mut p = W::ONE << (bits as u32 - 1);
+                for _ in 0..400 {
+                    p = rm::next_prime_w(&(p + W::ONE));
+                    if p.bits() != bits as u32 {
+                        break;
+                    }
+                    let m8 = p.digits()[0] & 7;
+                    if m8 % 4 == 3 && cls_adjusted_size(&p) == s && !found.iter().any(|f| f.1 == m8) {
+                        found.push((format!("-{}", p), m8));
+                    }
+                    if m8 % 4 == 1 {
+                        let d = p * W::from_digit(4);
+                        if cls_adjusted_size(&d) == s && !found.iter().any(|f| f.1 == 4) {
+                            found.push((format!("-{}", d), 4));
+                        }
+                    }
+                    if found.len() >= 3 {
+                        break 'search;
+                    }
+                }
+            }
+            for (ds, _) in &found {
+                ev += 1;
+                let d: Int = ds.parse().expect("Int");
+                let mut prefs = Preferences::default();
+                prefs.verbosity = Verbosity::Silent;
+                prefs.should_abort = Some(Box::new(|| true));
+                for dbl in [None, Some(true)] {
+                    prefs.use_double = dbl;
+                    if let Err(e) = guarded(|| yamaquasi::classgroup::classgroup(&d, &prefs, None).is_some()) {
+                        bad.push((
+                            format!("variant=classgroup;what=consumer-panic;site={};adjusted_size={}", e.site, s),
+                            format!("classgroup({}) (adjusted size {}, double={:?}) panics during parameter selection / first polynomial family: {}", ds, s, dbl, e.short()),
+                        ));
+                        break;
+                    }
+                }
+            }
+            (ev, bad, !found.is_empty())
+        })
+        .collect();
+    let mut ev = 0;
+    let mut bad = vec![];
+    let mut missing = vec![];
+    for (&s, (e, b, hit)) in targets.iter().zip(res) {
+        ev += e;
+        bad.extend(b.into_iter().take(1));
+        if !hit {
+            missing.push(s);
+        }
+    }
+    (ev, bad, missing)
+}
+
 fn dispatch(bits: u32, kmax: u32) -> (u64, Vec<Bad>) {
     let mut bad: Vec<Bad> = vec![];
     let mut ev = 0;
@@ -368,6 +489,13 @@ pub fn run(ctx: &Ctx) -> Report {
         rep.evaluations += e;
         all_bad.extend(bad.into_iter().take(1));
     }
+    // part 5
+    let smax = ctx.pick(150u32, 215);
+    let (e, bad, missing) = classgroup_tables(smax);
+    rep.evaluations += e;
+    all_bad.extend(bad);
+    rep.set("classgroup_adjusted_sizes", J::s(format!("20..={smax}")));
+    rep.set("classgroup_adjusted_sizes_not_reached", J::A(missing.iter().map(|&x| J::from(x as u64)).collect()));
     for (k, w) in all_bad.into_iter().take(60) {
         rep.violation(k, w.clone(), J::obj(vec![("case", J::s(w))]));
     }
@@ -379,7 +507,7 @@ pub fn run(ctx: &Ctx) -> Report {
     rep.sample(J::obj(vec![("bits", J::from(330u64)), ("class", J::from(5u64)), ("double", J::B(true)), ("checks", J::s("SIQS/MPQS/QS/classgroup parameter functions"))]));
     rep.sample(J::obj(vec![("table", J::s("pollard_pm1::STAGE2_PARAMS")), ("B2", J::s("every point of a 64-per-octave grid 100..6e13 and the strategy literals")), ("checks", J::s("d1 % 6, d2 power of two, d2/2 >= 28, phi(d1)+2 < d2, MultiZmodP::new"))]));
     rep.sample(J::obj(vec![("dispatch", J::s("convolve_modn")), ("bits", J::from(156u64)), ("size", J::s("2^1..2^11")), ("operands", J::s("all 1 / all n-1"))]));
-    rep.rule = format!("(1) EVERY bit length 1..512 x residue class 1,3,5,7 mod 8 x double switch: SIQS, MPQS, QS and class-group parameter functions evaluated (a panic/underflow is a violation) and checked against the consumers' transcribed requirements: positive sizes, interval a positive multiple of 32768, large-prime bounds within u32/u64, A*M^2 within the 255-bit assertion (flagged only when certain), D below 127 bits; (2) the consumers themselves (FBase::new multiple of 8, select_siqs_factors, select_a, prepare_a, Poly::first/next, MPQS make_poly, SieveQS set-up) on a representative input of every size in {:?}..{:?} ({} sizes); (3) both stage-2 tables: the row selected for every B2 of a 64-points-per-octave grid from 100 to 6e13 plus every strategy literal: d1 % 6 == 0, P-1 rows: d2 a power of two, d2/2 >= FFT threshold, phi(d1)+2 < d2, NTT context constructible for a 500-bit modulus up to 2^{}, pm1_impl run on every row within budget; (4) convolve_modn dispatch: EVERY modulus size 2..500 bits (two shapes) x every transform size 2^1..2^{} with worst-case full-length operands (all 1 / all n-1): every cyclic coefficient must equal size mod n.", sizes.first(), sizes.last(), sizes.len(), budget_log_for_rule(ctx), kmax);
+    rep.rule = format!("(1) EVERY bit length 1..512 x residue class 1,3,5,7 mod 8 x double switch: SIQS, MPQS, QS and class-group parameter functions evaluated (a panic/underflow is a violation) and checked against the consumers' transcribed requirements: positive sizes, interval a positive multiple of 32768, large-prime bounds within u32/u64, A*M^2 within the 255-bit assertion (flagged only when certain), D below 127 bits; (2) the consumers themselves (FBase::new multiple of 8, select_siqs_factors, select_a, prepare_a, Poly::first/next, MPQS make_poly, SieveQS set-up) on a representative input of every size in {:?}..{:?} ({} sizes); (3) both stage-2 tables: the row selected for every B2 of a 64-points-per-octave grid from 100 to 6e13 plus every strategy literal: d1 % 6 == 0, P-1 rows: d2 a power of two, d2/2 >= FFT threshold, phi(d1)+2 < d2, NTT context constructible for a 500-bit modulus up to 2^{}, pm1_impl run on every row within budget; (4) convolve_modn dispatch: EVERY modulus size 2..500 bits (two shapes) x every transform size 2^1..2^{} with worst-case full-length operands (all 1 / all n-1): every cyclic coefficient must equal size mod n; (5) the class-group tables through their consumer: for EVERY adjusted size 20..={} discriminants -p (p = 3 and 7 mod 8) and -4p with exactly that adjusted size run classgroup() (default and forced double large primes) through parameter selection and one polynomial family with the abort predicate set: a panic is a violation.", sizes.first(), sizes.last(), sizes.len(), budget_log_for_rule(ctx), kmax, smax);
     rep.assumptions.push("requirements transcribed from the consumers' assert!s and arithmetic; A*M^2 flagged only on a certain failure (lower bound on A)".into());
     rep
 }
